@@ -14,7 +14,8 @@
 (* before the fix: the nil configuration was dereferenced.                   *)
 (***************************************************************************)
 EXTENDS Naturals, FiniteSets, TLC
-CONSTANTS Passes, InitFails, LatchSkips
+CONSTANTS Passes, InitFails, LatchSkips,
+          UnlockAlways      \* the mutex is released on every return path of prepareGocritic (defer); what-if FALSE: not when the latch is hit
 VARIABLES mu, cached, latch, ppc, got, paramsWrittenBy, readingParams
 vars == <<mu, cached, latch, ppc, got, paramsWrittenBy, readingParams>>
 Free == 0
@@ -29,7 +30,7 @@ Lock(p)   == ppc[p] = "enter" /\ mu = Free /\ mu' = p /\ ppc' = [ppc EXCEPT ![p]
              /\ UNCHANGED <<cached, latch, got, paramsWrittenBy, readingParams>>
 LatchHit(p) == /\ ppc[p] = "locked" /\ latch
                /\ got' = [got EXCEPT ![p] = IF LatchSkips THEN "skip" ELSE "neither"]
-               /\ ppc' = [ppc EXCEPT ![p] = "unlock"] /\ UNCHANGED <<mu, cached, latch, paramsWrittenBy, readingParams>>
+               /\ ppc' = [ppc EXCEPT ![p] = IF UnlockAlways THEN "unlock" ELSE "prepared"] /\ UNCHANGED <<mu, cached, latch, paramsWrittenBy, readingParams>>
 CacheHit(p) == /\ ppc[p] = "locked" /\ ~latch /\ cached
                /\ got' = [got EXCEPT ![p] = "cfg"]
                /\ ppc' = [ppc EXCEPT ![p] = "unlock"] /\ UNCHANGED <<mu, cached, latch, paramsWrittenBy, readingParams>>
@@ -67,4 +68,13 @@ NoPartial == InitFails => \A p \in Passes : ppc[p] \notin {"checking", "returned
 NoParamRace == \A p \in Passes : (ppc[p] = "locked" /\ ~cached /\ ~latch /\ ~InitFails) => readingParams = {}
 WrittenOnce == Cardinality(paramsWrittenBy) <= 1
 MutexOK == mu # Free => ppc[mu] \in {"locked", "unlock"}
+\* the init error is reported by exactly one pass, all the others skip their package
+Returned == {"returnedOK", "returnedErr", "returnedSkip"}
+ErrReportedOnce == (\A p \in Passes : ppc[p] \in Returned) =>
+                     Cardinality({ p \in Passes : got[p] = "err" }) = (IF InitFails THEN 1 ELSE 0)
+\* liveness: every pass returns (weak fairness of each pass, strong fairness of taking the mutex)
+Step(p) == Enter(p) \/ LatchHit(p) \/ CacheHit(p) \/ InitOK(p) \/ InitFail(p) \/ Unlock(p)
+           \/ ReturnErr(p) \/ Skip(p) \/ Deref(p) \/ Create(p) \/ Finish(p) \/ CreateErr(p)
+LiveSpec == Spec /\ \A p \in Passes : WF_vars(Step(p)) /\ SF_vars(Lock(p))
+AllReturn == <>(\A p \in Passes : ppc[p] \in Returned \cup {"PANIC"})
 =============================================================================
